@@ -438,8 +438,45 @@ func init() {
 	reg("strings.TrimSuffix", func(fr *frame, a []value) value { return strings.TrimSuffix(strArg(fr, a[0]), strArg(fr, a[1])) })
 	reg("strings.TrimSpace", func(fr *frame, a []value) value { return strings.TrimSpace(strArg(fr, a[0])) })
 	reg("strings.Trim", func(fr *frame, a []value) value { return strings.Trim(strArg(fr, a[0]), strArg(fr, a[1])) })
-	reg("strings.ToUpper", func(fr *frame, a []value) value { return strings.ToUpper(strArg(fr, a[0])) })
-	reg("strings.ToLower", func(fr *frame, a []value) value { return strings.ToLower(strArg(fr, a[0])) })
+	reg("strings.TrimLeft", func(fr *frame, a []value) value { return strings.TrimLeft(strArg(fr, a[0]), strArg(fr, a[1])) })
+	reg("strings.TrimRight", func(fr *frame, a []value) value { return strings.TrimRight(strArg(fr, a[0]), strArg(fr, a[1])) })
+	reg("strings.ContainsAny", func(fr *frame, a []value) value { return strings.ContainsAny(strArg(fr, a[0]), strArg(fr, a[1])) })
+	reg("strings.ContainsRune", func(fr *frame, a []value) value { return strings.ContainsRune(strArg(fr, a[0]), rune(asInt64(a[1]))) })
+	reg("strings.IndexAny", func(fr *frame, a []value) value { return strings.IndexAny(strArg(fr, a[0]), strArg(fr, a[1])) })
+	reg("strings.IndexRune", func(fr *frame, a []value) value { return strings.IndexRune(strArg(fr, a[0]), rune(asInt64(a[1]))) })
+	reg("strings.LastIndexByte", func(fr *frame, a []value) value { return strings.LastIndexByte(strArg(fr, a[0]), byte(asInt64(a[1]))) })
+	reg("strings.LastIndexAny", func(fr *frame, a []value) value { return strings.LastIndexAny(strArg(fr, a[0]), strArg(fr, a[1])) })
+	reg("strings.Title", func(fr *frame, a []value) value { return strings.Title(strArg(fr, a[0])) })
+	reg("strings.SplitAfter", func(fr *frame, a []value) value {
+		return strSliceToValue(strings.SplitAfter(strArg(fr, a[0]), strArg(fr, a[1])))
+	})
+	reg("strings.SplitAfterN", func(fr *frame, a []value) value {
+		return strSliceToValue(strings.SplitAfterN(strArg(fr, a[0]), strArg(fr, a[1]), int(asInt64(a[2]))))
+	})
+	reg("strings.Cut", func(fr *frame, a []value) value {
+		b, c, ok := strings.Cut(strArg(fr, a[0]), strArg(fr, a[1]))
+		return tuple{b, c, ok}
+	})
+	reg("strings.CutPrefix", func(fr *frame, a []value) value {
+		b, ok := strings.CutPrefix(strArg(fr, a[0]), strArg(fr, a[1]))
+		return tuple{b, ok}
+	})
+	reg("strings.CutSuffix", func(fr *frame, a []value) value {
+		b, ok := strings.CutSuffix(strArg(fr, a[0]), strArg(fr, a[1]))
+		return tuple{b, ok}
+	})
+	reg("strings.ToUpper", func(fr *frame, a []value) value {
+		if isUIDSym(a[0]) {
+			return symv{fr.ex.uidMapBytes(a[0].(symv).T, 'a', 'z', -32)}
+		}
+		return strings.ToUpper(strArg(fr, a[0]))
+	})
+	reg("strings.ToLower", func(fr *frame, a []value) value {
+		if isUIDSym(a[0]) {
+			return symv{fr.ex.uidMapBytes(a[0].(symv).T, 'A', 'Z', 32)}
+		}
+		return strings.ToLower(strArg(fr, a[0]))
+	})
 	reg("strings.Index", func(fr *frame, a []value) value { return strings.Index(strArg(fr, a[0]), strArg(fr, a[1])) })
 	reg("strings.IndexByte", func(fr *frame, a []value) value { return strings.IndexByte(strArg(fr, a[0]), a[1].(byte)) })
 	reg("strings.LastIndex", func(fr *frame, a []value) value { return strings.LastIndex(strArg(fr, a[0]), strArg(fr, a[1])) })
